@@ -2,7 +2,7 @@ SPECIFICATION Spec
 CONSTANTS
   TlsOn = TRUE
   AuthOn = TRUE
-  KF_FlagsSurviveTls = FALSE
+  KF_FlagsSurviveTls = TRUE
   KF_BufferSurvivesTls = FALSE
   KF_BareArg421 = FALSE
   KF_PlainAuthNoTls = FALSE
